@@ -13,6 +13,7 @@ import Postcard.Model.Crc
 import Postcard.Model.Accumulator
 import Postcard.Model.SexpMTy
 import Postcard.Model.Fixint
+import Postcard.Model.DeFlavor
 import Postcard.Spec.Cobs
 import Postcard.Spec.Fnv
 /-
@@ -289,6 +290,46 @@ def handle (line : String) : String :=
         else if order == "be" then "ok " ++ hexOfBytes (enc (fixBE w signed x))
         else "bad-op"
       | _, _ => "bad-op"
+    | "stack", [.atom "crccobs", .atom storage, .atom cap, .atom alg, _t, v] =>
+      match cap.toNat?, valOfSexp v with
+      | some cap, some v =>
+        withAlg alg (fun _ a nbytes =>
+          storageRun storage cap 0xA5 (fun F s0 _ =>
+            match Cobs.tryNew F s0 with
+            | (_, some e) => "err " ++ e.name
+            | (st1, none) => serAnswer (serializeWith (CrcSer a nbytes (Cobs F)) (st1, a.init) v).2)) "bad-op"
+      | _, _ => "bad-op"
+    | "rec", [.atom mode, v] =>
+      match valOfSexp v with
+      | some v =>
+        let show1 : Chunk → String
+          | .push b => " p:" ++ (hexOfBytes [b]).drop 1
+          | .extend bs => " e:" ++ (hexOfBytes bs).drop 1
+        if mode == "override" then "ok" ++ String.join ((emit v).map show1)
+        else "ok" ++ String.join ((enc v).map (fun b => show1 (.push b)))
+      | none => "bad-op"
+    | "wio", [.atom _adapter, .atom failAt, .atom _sched, v] =>
+      match valOfSexp v with
+      | some v =>
+        let fa : Option Nat := if failAt == "none" then none else failAt.toNat?
+        match toIo v ⟨[], fa⟩ with
+        | (_, .ok out) => "ok " ++ hexOfBytes out
+        | (st, .error e) => s!"err {e.name} written={hexOfBytes st.written}"
+      | none => "bad-op"
+    | "rio", [.atom _adapter, .atom fault, .atom scratch, .atom _sched, .atom count, t, .atom h] =>
+      match scratch.toNat?, count.toNat?, tyOfSexp t, bytesOfHex h with
+      | some scratch, some count, some t, some stream =>
+        let fa : Option Nat := if fault == "none" then none else fault.toNat?
+        -- consecutive messages on one stream: from_io returns (reader, rest of scratch)
+        let rec go (k : Nat) (st : IOReaderSt) (acc : String) : String :=
+          match k with
+          | 0 => acc ++ s!" | delivered={st.delivered} scratchleft={st.scratchCap - st.scratchUsed}"
+          | k+1 =>
+            match fromIo t st with
+            | .error e => acc ++ " | err " ++ e.name
+            | .ok (v, st') => go k st'.next (acc ++ " | ok " ++ valToStr v)
+        go count (IOReaderSt.new stream fa scratch) "rio"
+      | _, _, _, _ => "bad-op"
     | "hasty", [t, v] =>
       match tyOfSexp t, valOfSexp v with
       | some t, some v => if hasTy v t then "ok 1" else "ok 0"
